@@ -36,7 +36,7 @@ def rand_filters(rng):
             ['permit', ['value', 'source']], ['permit', []], ['rename', 'value', 'v'],
             ['copy', 'value', 'copy'], ['modify', 'value', 'succ'],
             ['modify', 'value', 'reject_falsy'], ['modify', 'previous', 'delete_truthy']])
-        fs.append(['dataedit', rng.choice(['class', 'instance']), [op]])
+        fs.append(['dataedit', rng.choice(['class', 'instance', 'instance', 'chainmap', 'userdict']), [op]])
     return fs
 
 
